@@ -4,6 +4,8 @@ Model: `CoapLite.Model.BlockValue` (tied to the code by domain BV).
 -/
 import CoapLite.Model.BlockValue
 import CoapLite.Lemmas.Uint
+import CoapLite.Lemmas.Shape.BlockValue
+import CoapLite.Lemmas.Shape.Global
 
 namespace CoapLite.C13
 open CoapLite Spec BlockValue
@@ -176,5 +178,18 @@ example : BlockValue.dec [0x10, 0x00, 0x00] = .err .other := by decide
 
 /-- the reported block size is `2^(SZX+4)` -/
 theorem size_eq (b : BlockValue) : b.size = 2 ^ (b.szx + 4) := rfl
+
+/-! ### tie to the source: the state the model carries is the state the code carries
+
+`Shapes.*` (Generated/Shapes.lean) is re-read from /repo/src on every run: the field lists of the
+structs this property's model mirrors, and every construct that introduces state outside the values
+the API passes around (thread-locals, `static mut`, cells, locks, atomics). The model accounts for
+exactly these fields (Lemmas/Shape/*.lean say which model field mirrors which); a field or a
+global added to the code – a memo, a marker, a digest in place of the data – breaks this theorem
+even if no explored input behaves differently. -/
+theorem state_shape_matches_source :
+    Shapes.globalState = [] ∧
+    Shapes.blockValue = [("num", "u16"), ("more", "bool"), ("size_exponent", "u8")] :=
+  ⟨ShapeTie.no_global_state, ShapeTie.blockValue⟩
 
 end CoapLite.C13
